@@ -7,28 +7,29 @@ PROPS = {
     'C01': ['DISPATCH', 'ACDUAL', 'FINCHK', 'SYMIDX', 'ORDTOTAL', 'FRAMERESET', 'MERGE', 'CACHELIFE', 'SIBLING', 'ERASER', 'FORWARD', 'KEYFIELDS', 'QUEUEENDS', 'CLIOPT', 'FLAGRESET', 'DRAIN', 'INSETLABEL', 'TUPLEPOS', 'CHECKEDRET', 'STATICSTATE'],
     'C02': ['UNIONCONTRIB', 'PRODUCT', 'WORKLIST', 'COW', 'FORWARD', 'UNIONTRANSL', 'ACCRET', 'SCRATCHRESET', 'NULLPARAM', 'TENTATIVE', 'REINDEXALL', 'ALPHASRC', 'DRAIN', 'STATICSTATE', 'SHAREID', 'QUEUEENDS'],
     'C03': ['SIZEEQ', 'WORKLIST', 'DRAIN', 'COW', 'FORWARD', 'COUNTGUARD', 'USEMOVE', 'ACCRET', 'KEPTRULES', 'COLLECTALL', 'ALPHASRC', 'COPYALL', 'QUEUEENDS', 'STATICSTATE'],
-    'C04': ['KIND', 'SIMMAP', 'COPYALL', 'LOOPBOUND', 'TUPLEPOS', 'FORWARD', 'KEYFIELDS', 'CLIOPT', 'INSETLABEL', 'PREPASS', 'USEDSTATES', 'REFSTABLE', 'STATICSTATE'],
-    'C05': ['SIMMAP', 'KIND', 'LOOPBOUND', 'DRAIN', 'WORKLIST', 'SIZEEQ', 'COW', 'FORWARD', 'ACCRET', 'INSETLABEL', 'COPYALL', 'USEDSTATES', 'ALPHASRC', 'QUEUEENDS', 'STATICSTATE'],
+    'C04': ['KIND', 'SIMMAP', 'COPYALL', 'LOOPBOUND', 'TUPLEPOS', 'FORWARD', 'KEYFIELDS', 'CLIOPT', 'INSETLABEL', 'PREPASS', 'USEDSTATES', 'REFSTABLE', 'STATICSTATE', 'TRANSLALL', 'SELFREF'],
+    'C05': ['SIMMAP', 'KIND', 'LOOPBOUND', 'DRAIN', 'WORKLIST', 'SIZEEQ', 'COW', 'FORWARD', 'ACCRET', 'INSETLABEL', 'COPYALL', 'USEDSTATES', 'ALPHASRC', 'QUEUEENDS', 'STATICSTATE', 'TRANSLALL', 'SELFREF'],
     'C06': ['COMPL', 'ACDUAL', 'ALPHASRC', 'ACCRET', 'COLLECTALL', 'WORKLIST', 'SYMIDX', 'SIZEDINDEX', 'FALLOFF', 'COUNTGUARD', 'KEPTRULES', 'DRAIN', 'QUEUEENDS', 'STATICSTATE'],
-    'C07': ['DISPATCH', 'ACDUAL', 'FINCHK', 'MERGE', 'PARALLEL', 'COLLECTALL', 'CACHELIFE', 'SIBLING', 'FORWARD', 'QUEUEENDS', 'CLIOPT', 'SCRATCHRESET', 'GENPRE', 'DRAIN', 'FLAGRESET', 'TUPLEPOS', 'CANON', 'UNIONCONTRIB', 'CHECKEDRET', 'STATICSTATE'],
-    'C08': ['UNIONCONTRIB', 'PRODUCT', 'WORKLIST', 'DRAIN', 'INIT', 'COLLECTALL', 'ARITY', 'TUPLEPOS', 'LOADROLE', 'FORWARD', 'USEMOVE', 'UNIONTRANSL', 'ACCRET', 'SCRATCHRESET', 'NULLPARAM', 'REINDEXALL', 'BACKTRACK', 'CANON', 'QUEUEENDS', 'STATICSTATE'],
-    'C09': ['DISPATCH', 'ACDUAL', 'FINCHK', 'MEMO', 'HASHEQ', 'ORDTOTAL', 'FORWARD', 'ADDRKEY', 'QUEUEENDS', 'CLIOPT', 'FLAGRESET', 'DRAIN', 'ITERINVAL', 'CONGRMATCH', 'REFSTABLE', 'OWNKEY', 'CHECKEDRET', 'STATICSTATE'],
+    'C07': ['DISPATCH', 'ACDUAL', 'FINCHK', 'MERGE', 'PARALLEL', 'COLLECTALL', 'CACHELIFE', 'SIBLING', 'FORWARD', 'QUEUEENDS', 'CLIOPT', 'SCRATCHRESET', 'GENPRE', 'DRAIN', 'FLAGRESET', 'TUPLEPOS', 'CANON', 'UNIONCONTRIB', 'CHECKEDRET', 'STATICSTATE', 'SAMELEN'],
+    'C08': ['UNIONCONTRIB', 'PRODUCT', 'WORKLIST', 'DRAIN', 'INIT', 'COLLECTALL', 'ARITY', 'TUPLEPOS', 'LOADROLE', 'FORWARD', 'USEMOVE', 'UNIONTRANSL', 'ACCRET', 'SCRATCHRESET', 'NULLPARAM', 'REINDEXALL', 'BACKTRACK', 'CANON', 'QUEUEENDS', 'STATICSTATE', 'SAMELEN'],
+    'C09': ['DISPATCH', 'ACDUAL', 'FINCHK', 'MEMO', 'HASHEQ', 'ORDTOTAL', 'FORWARD', 'ADDRKEY', 'QUEUEENDS', 'CLIOPT', 'FLAGRESET', 'DRAIN', 'ITERINVAL', 'CONGRMATCH', 'REFSTABLE', 'OWNKEY', 'CHECKEDRET', 'STATICSTATE', 'TRANSLALL'],
     'C10': ['UNIONCONTRIB', 'PRODUCT', 'PAIRFIELD', 'FINCHK', 'WORKLIST', 'DRAIN', 'PARAMPATH', 'COW', 'FORWARD', 'NFAOPS', 'UNIONTRANSL', 'ACCRET', 'SCRATCHRESET', 'COLLECTALL', 'NULLPARAM', 'REINDEXALL', 'ALPHASRC', 'OWNKEY', 'SHAREID', 'MEMBERQ', 'CHECKEDRET', 'QUEUEENDS', 'STATICSTATE'],
     'C11': ['COW', 'CLEARALL', 'HASHCONS', 'CACHELIFE', 'ALPHASRC', 'DISPATCH', 'COPYALL', 'STATICSTATE', 'SHAREID'],
     'C13': ['TEXT', 'LOADROLE', 'PARAMPATH', 'PAIRFIELD', 'FORWARD', 'SCRATCHRESET', 'NOTHROW', 'COLLECTALL', 'DRAIN', 'BACKTRACK', 'COPYALL', 'REFCNT', 'STATICSTATE', 'NOREGEX'],
     'C12': ['COW', 'HASHCONS', 'ITER', 'NONEMPTY', 'CLEARALL', 'PARAMPATH', 'USEDSTATES', 'COPYALL', 'ORDTOTAL', 'CHECKEDRET', 'MEMBERQ', 'STATICSTATE'],
     'C14': ['KIND', 'COW', 'FORWARD', 'SCRATCHRESET', 'HASHCONS', 'REINDEXALL', 'ALPHASRC', 'SIZEEQ', 'STATICSTATE'],
     'C15': ['FINCHK', 'WORKLIST', 'DRAIN', 'KIND', 'HASHCONS', 'COW', 'FORWARD', 'COUNTGUARD', 'ACCRET', 'KEPTRULES', 'COLLECTALL', 'ALPHASRC', 'QUEUEENDS', 'STATICSTATE'],
-    'C16': ['INSETLABEL', 'COPYALL', 'STALESIZE', 'QUEUEENDS', 'DRAIN', 'COLLECTALL', 'LOOPBOUND', 'INIT', 'ITERINVAL', 'STATICSTATE'],
+    'C16': ['INSETLABEL', 'COPYALL', 'STALESIZE', 'QUEUEENDS', 'DRAIN', 'COLLECTALL', 'LOOPBOUND', 'INIT', 'ITERINVAL', 'STATICSTATE', 'SELFREF'],
     'C17': ['CANON', 'TEXT', 'BACKTRACK', 'COPYALL', 'REFCNT', 'STATICSTATE'],
     'C18': ['REFCNT', 'CANON', 'COPYALL', 'STATICSTATE'],
-    'C19': ['KIND', 'SIMMAP', 'DISPATCH', 'SIBLING', 'ACDUAL', 'ORDTOTAL', 'FRAMERESET', 'HASHEQ', 'MEMO', 'KEYFIELDS', 'ADDRKEY', 'QUEUEENDS', 'CLIOPT', 'FLAGRESET', 'INSETLABEL', 'PREPASS', 'CONGRMATCH', 'USEDSTATES', 'REFSTABLE', 'TUPLEPOS', 'STATICSTATE'],
-    'C20': ['INIT', 'FALLOFF', 'PAIRFIELD', 'COPYALL', 'FRAMERESET', 'CACHELIFE', 'LOOPBOUND', 'ERASER', 'STALESIZE', 'ITER', 'NONEMPTY', 'USEMOVE', 'INSETLABEL', 'GENPRE', 'REFCNT', 'NULLPARAM', 'ITERINVAL', 'REFSTABLE', 'SIZEDINDEX', 'CANON', 'CHECKEDRET', 'STATICSTATE'],
+    'C19': ['KIND', 'SIMMAP', 'DISPATCH', 'SIBLING', 'ACDUAL', 'ORDTOTAL', 'FRAMERESET', 'HASHEQ', 'MEMO', 'KEYFIELDS', 'ADDRKEY', 'QUEUEENDS', 'CLIOPT', 'FLAGRESET', 'INSETLABEL', 'PREPASS', 'CONGRMATCH', 'USEDSTATES', 'REFSTABLE', 'TUPLEPOS', 'STATICSTATE', 'TRANSLALL', 'SELFREF'],
+    'C20': ['INIT', 'FALLOFF', 'PAIRFIELD', 'COPYALL', 'FRAMERESET', 'CACHELIFE', 'LOOPBOUND', 'ERASER', 'STALESIZE', 'ITER', 'NONEMPTY', 'USEMOVE', 'INSETLABEL', 'GENPRE', 'REFCNT', 'NULLPARAM', 'ITERINVAL', 'REFSTABLE', 'SIZEDINDEX', 'CANON', 'CHECKEDRET', 'STATICSTATE', 'SELFREF'],
 }
 
 # (property, rule) -> regex on the repo-relative file: only sites in matching files are attributed to that
 # property (rule health — floors, anchors — is always judged on all sites)
 FILTER = {
+    ('C09', 'TRANSLALL'): r'explicit_finite', ('C04', 'TRANSLALL'): r'explicit_tree', ('C05', 'TRANSLALL'): r'explicit_tree', ('C19', 'TRANSLALL'): r'explicit_tree', ('C07', 'SAMELEN'): r'bdd_', ('C08', 'SAMELEN'): r'bdd_',
     ('C02', 'QUEUEENDS'): r'explicit_tree', ('C03', 'QUEUEENDS'): r'explicit_tree', ('C08', 'QUEUEENDS'): r'bdd_', ('C10', 'QUEUEENDS'): r'explicit_finite', ('C15', 'QUEUEENDS'): r'explicit_tree_candidate|explicit_tree_unreach', ('C05', 'QUEUEENDS'): r'explicit_tree_unreach', ('C06', 'QUEUEENDS'): r'comp_down|explicit_tree_(useless|unreach)',
     ('C12', 'CHECKEDRET'): r'explicit_tree', ('C12', 'MEMBERQ'): r'explicit_tree', ('C10', 'MEMBERQ'): r'explicit_finite', ('C10', 'CHECKEDRET'): r'explicit_finite', ('C09', 'CHECKEDRET'): r'explicit_finite|comparators|macrostate', ('C01', 'CHECKEDRET'): r'explicit_tree_incl|down_tree|tree_incl|antichain', ('C07', 'CHECKEDRET'): r'bdd_|tree_incl|down_tree|antichain',
     ('C02', 'SHAREID'): r'explicit_tree', ('C10', 'SHAREID'): r'explicit_finite', ('C11', 'SHAREID'): r'explicit_',
